@@ -35,6 +35,8 @@ pub enum Target {
     Scratch(String),
     /// path given relative to the process's current directory (which is the run directory)
     Relative(String),
+    /// a file in a sub-directory of the run directory (not the current directory)
+    Sub(String),
     /// real-kernel fault: parent directory does not exist
     MissingDir(String),
     /// real-kernel fault: the path names an existing directory
@@ -80,6 +82,7 @@ impl Target {
         match self {
             Target::Scratch(_) => "scratch",
             Target::Relative(_) => "relative",
+            Target::Sub(_) => "subdir",
             Target::MissingDir(_) => "missing_dir",
             Target::IsDir => "is_dir",
             Target::NotDir => "not_dir",
@@ -94,7 +97,7 @@ impl Target {
     }
     /// The kernel itself makes creating or fully writing this target impossible.
     pub fn kernel_fault(&self) -> bool {
-        !matches!(self, Target::Scratch(_) | Target::Relative(_))
+        !matches!(self, Target::Scratch(_) | Target::Relative(_) | Target::Sub(_))
     }
 }
 
@@ -119,6 +122,9 @@ pub enum Pre {
     DanglingSymlink,
     /// the path is one of two hard links to a longer file
     HardLinkTwin,
+    /// a symbolic link whose target is *relative* (a bare file name next to the link); the
+    /// target exists and is longer than the output, or (dangling) does not exist
+    RelSymlink { dangling: bool },
 }
 
 impl Pre {
@@ -134,6 +140,7 @@ impl Pre {
             Pre::SymlinkToFile(_) => "symlink_to_file",
             Pre::DanglingSymlink => "dangling_symlink",
             Pre::HardLinkTwin => "hard_link_twin",
+            Pre::RelSymlink { .. } => "relative_symlink",
         }
     }
 }
@@ -556,11 +563,13 @@ pub fn gen_run(verif_seed: u64, index: u64) -> IoRun {
             }
         } else if rng.chance(1, 6) {
             Target::Relative(rng.pick(&names).clone())
+        } else if rng.chance(1, 5) {
+            Target::Sub(rng.pick(&names).clone())
         } else {
             Target::Scratch(rng.pick(&names).clone())
         };
         let pre = if sw.prestate {
-            match rng.weighted(&[40, 15, 25, 10, 10, 4, 6, 4, 3, 3]) {
+            match rng.weighted(&[40, 15, 25, 10, 10, 4, 6, 4, 3, 3, 4]) {
                 0 => Pre::Absent,
                 1 => Pre::Shorter,
                 2 => Pre::Longer(*rng.pick(&[1usize, 17, 4096, 100_000])),
@@ -570,7 +579,8 @@ pub fn gen_run(verif_seed: u64, index: u64) -> IoRun {
                 6 => Pre::Other(*rng.pick(&[0usize, 1, 100, 5000, 300_000])),
                 7 => Pre::SymlinkToFile(*rng.pick(&[0usize, 1, 5000])),
                 8 => Pre::DanglingSymlink,
-                _ => Pre::HardLinkTwin,
+                9 => Pre::HardLinkTwin,
+                _ => Pre::RelSymlink { dangling: rng.chance(1, 2) },
             }
         } else {
             Pre::Absent
@@ -946,6 +956,7 @@ fn resolve_path(dir: &Path, t: &Target) -> String {
     match t {
         Target::Scratch(n) => format!("{}/{}", d, n),
         Target::Relative(n) => n.clone(),
+        Target::Sub(n) => format!("{}/sub dir/{}", d, n),
         Target::MissingDir(n) => format!("{}/no-such-dir/{}", d, n),
         Target::IsDir => format!("{}/a-directory", d),
         Target::NotDir => format!("{}/a-file/child.out", d),
@@ -1098,7 +1109,10 @@ pub fn exec_op(dir: &Path, idx: usize, op: &IoOp, stats: &mut Stats, pre: Option
                 return skip(rep, "no_dev_full", stats);
             }
         }
-        Target::Scratch(_) | Target::Relative(_) => {
+        Target::Scratch(_) | Target::Relative(_) | Target::Sub(_) => {
+            if matches!(op.target, Target::Sub(_)) {
+                let _ = std::fs::create_dir_all(dir.join("sub dir"));
+            }
             let existing = std::fs::read(&path).ok();
             let pre: Option<Vec<u8>> = match &op.pre {
                 Pre::Absent => None,
@@ -1129,6 +1143,23 @@ pub fn exec_op(dir: &Path, idx: usize, op: &IoOp, stats: &mut Stats, pre: Option
                     let _ = std::fs::remove_file(&path);
                     let _ = std::fs::remove_file(format!("{}.not-yet", path));
                     let _ = std::os::unix::fs::symlink(format!("{}.not-yet", path), &path);
+                    None
+                }
+                Pre::RelSymlink { dangling } => {
+                    let p = Path::new(&path);
+                    let name = p.file_name().map(|n| n.to_string_lossy().to_string()).unwrap_or_default();
+                    let parent = p.parent().map(|d| d.to_path_buf()).unwrap_or_default();
+                    let rel = format!("{}.rel-target", name);
+                    let _ = std::fs::remove_file(&path);
+                    let _ = std::fs::remove_file(parent.join(&rel));
+                    if !*dangling {
+                        let mut v = expected.clone();
+                        v.extend(std::iter::repeat(b'R').take(777));
+                        let _ = std::fs::write(parent.join(&rel), &v);
+                    }
+                    if !name.is_empty() {
+                        let _ = std::os::unix::fs::symlink(&rel, &path);
+                    }
                     None
                 }
                 Pre::HardLinkTwin => {
